@@ -258,10 +258,11 @@ Fixpoint renorm_sensitive (s : string) : bool :=
     else should_escape MPath a || renorm_sensitive r1
   end.
 
-(** C15-F3: `allow_encoded_slashes: on` and the path (or the prefix to add) has such a spot *)
+(** C15-F3: `allow_encoded_slashes: on` and the path (or the prefix to add) has
+    such a spot, or the whole decoded path is "*" (which net/url never escapes) *)
 Definition guard_F3 (q : request) (r : rule) : bool :=
   match view_url q, r_setting r with
-  | Some u, On => renorm_sensitive (u_rawpath u) || renorm_sensitive (cfg_add r)
+  | Some u, On => renorm_sensitive (u_rawpath u) || renorm_sensitive (cfg_add r) || String.eqb (u_path u) "*"
   | _, _ => false
   end.
 
